@@ -64,17 +64,23 @@ func genC18(r *Rnd, t Tier) *Case {
 		case 1:
 			spec.ViaClient = true
 		}
-		spec.ReqCtx = pick(r, ACtxBackground, ACtxTODO, ACtxCancel, ACtxValues, ACtxDeadline, ACtxValues)
-		spec.ExecCtx = pick(r, ACtxNone, ACtxBackground, ACtxCancel, ACtxValues, ACtxNone)
+		spec.ReqCtx = pick(r, ACtxBackground, ACtxTODO, ACtxCancel, ACtxValues, ACtxDeadline, ACtxValues, ACtxDeadlineValues)
+		spec.ExecCtx = pick(r, ACtxNone, ACtxBackground, ACtxCancel, ACtxValues, ACtxNone, ACtxDeadline, ACtxDeadlineValues)
 		if spec.BodySize > 0 && r.P(0.35) {
 			spec.UploadDelay = time.Duration(r.Range(1, 8)) * unit
 		}
 	} else {
 		spec.Proto = pick(r, "grpc-client", "grpc-client", "grpc-server", "grpc-tap")
-		spec.ReqCtx = pick(r, ACtxBackground, ACtxCancel, ACtxValues, ACtxDeadline, ACtxValues)
-		spec.ExecCtx = pick(r, ACtxNone, ACtxBackground, ACtxCancel, ACtxValues)
+		spec.ReqCtx = pick(r, ACtxBackground, ACtxCancel, ACtxValues, ACtxDeadline, ACtxValues, ACtxDeadlineValues)
+		spec.ExecCtx = pick(r, ACtxNone, ACtxBackground, ACtxCancel, ACtxValues, ACtxDeadline, ACtxDeadlineValues)
 	}
 	spec.CtxD = time.Duration(r.Range(50, 500)) * unit
+	spec.CtxD2 = time.Duration(r.Range(30, 600)) * unit // earlier or later than the caller's
+	if r.P(0.5) {
+		// far deadlines: present, but not reached
+		spec.CtxD += 100000 * unit
+		spec.CtxD2 += time.Duration(r.Range(50000, 150000)) * unit
+	}
 	spec.Policies = genAdapterPolicies(r, unit, spec.Proto)
 	if spec.Proto == "grpc-tap" {
 		spec.Policies = []AdapterPolicy{{Kind: pick(r, "breaker", "timeout"), FailThr: 2, Limit: 50 * unit}}
@@ -209,7 +215,7 @@ func checkC18(c *checkCtx) {
 	onlyRetry := len(spec.Policies) == 1 && spec.Policies[0].Kind == "retry"
 	noPolicy := len(spec.Policies) == 0
 	canceled := cancel != nil && cancel.Seq < ret.Seq
-	deadlineHit := spec.ReqCtx == ACtxDeadline && ret.T >= spec.CtxD
+	deadlineHit := spec.deadlinePassed(ret.T)
 	retryable := httpRetryable
 	if spec.Proto != "http" {
 		retryable = grpcRetryable
@@ -290,7 +296,7 @@ func checkC18(c *checkCtx) {
 			if !hasRetry || st.RetryAfter == 0 || atts[i].end == nil || atts[i].end.Err != nil || !(atts[i].end.B == 429 || atts[i].end.B == 503) || atts[i].idx >= len(spec.Server) && false {
 				continue
 			}
-			if deadlineHit || (spec.ReqCtx == ACtxDeadline && atts[i+1].recv.T >= spec.CtxD) {
+			if deadlineHit || spec.deadlinePassed(atts[i+1].recv.T) {
 				continue
 			}
 			c.cov("c18.retry_after_checked")
@@ -304,7 +310,7 @@ func checkC18(c *checkCtx) {
 	if cancel != nil && read != nil && cancel.Seq < read.Seq {
 		canceled = true
 	}
-	if spec.ReqCtx == ACtxDeadline && read != nil && read.T >= spec.CtxD {
+	if read != nil && spec.deadlinePassed(read.T) {
 		deadlineHit = true
 	}
 	if spec.Proto == "http" && read != nil && !canceled && !deadlineHit {
